@@ -9,14 +9,18 @@ package main
 
 import (
 	"bytes"
+	"context"
 	"encoding/binary"
 	"fmt"
 	"math/rand"
 	"net"
 	"sort"
+	"strings"
 	"sync"
+	"sync/atomic"
 	"time"
 
+	"github.com/chihaya/chihaya/bittorrent"
 	"github.com/chihaya/chihaya/frontend/udp"
 	"github.com/chihaya/chihaya/middleware"
 	"github.com/chihaya/chihaya/pkg/timecache"
@@ -51,7 +55,10 @@ func stressAnnRound(o *Out, rng *rand.Rand, clients, perClient int) {
 	if err != nil {
 		panic(err)
 	}
-	logic := middleware.NewLogic(middleware.ResponseConfig{AnnounceInterval: time.Minute, MinAnnounceInterval: time.Second}, store, nil, nil)
+	// hooks that only LOOK at the request parameters (BEP 41 URL data), before the store is consulted and after the response was
+	// written: what they see must be the bytes of the request they came with (expected, by peer ID)
+	saw := &stressSaw{}
+	logic := middleware.NewLogic(middleware.ResponseConfig{AnnounceInterval: time.Minute, MinAnnounceInterval: time.Second}, store, []middleware.Hook{saw}, []middleware.Hook{saw})
 	cfg := eCfg{Key: key, SkewNs: int64(10 * time.Second), MaxNW: 100, DefNW: 50, MaxScrape: 3, Interval: int64(time.Minute), MinIntv: int64(time.Second)}
 	fe, err := udp.NewFrontend(logic, udp.Config{Addr: "127.0.0.1:0", PrivateKey: key, MaxClockSkew: time.Duration(cfg.SkewNs),
 		ParseOptions: udp.ParseOptions{AllowIPSpoofing: true, MaxNumWant: cfg.MaxNW, DefaultNumWant: cfg.DefNW, MaxScrapeInfoHashes: cfg.MaxScrape}})
@@ -104,6 +111,12 @@ func stressAnnRound(o *Out, rng *rand.Rand, clients, perClient int) {
 					// a LARGE datagram (BEP 41 URL data chained over many options) - up to the 2048 bytes the frontend reads:
 					// what arrives through the socket must be what was sent
 					opts = stressLongOpts([]int{1473, 1485, 1600, 1999, 2047, 2048}[lr.Intn(6)] - 98)
+					saw.want.Store(string(ids[k]), "a=b&pad="+strings.Repeat("x", 245)) // the first option's share; the rest is x's
+				} else if lr.Intn(2) == 0 {
+					// a short request string of this request's own
+					q := fmt.Sprintf("tok=%d-%d-%d&z=%d", c, k, lr.Int63(), lr.Intn(10))
+					opts = append([]byte{2, byte(len(q) + 3)}, []byte("/a?"+q)...)
+					saw.want.Store(string(ids[k]), q)
 				}
 				pkt := e2eAnnouncePacket(lr, false, ihOf[c], ids[k], uint64(lr.Intn(2)), uint32(lr.Intn(4)), ipf, 50, uint16(7000+lr.Intn(3)), opts)
 				copy(pkt[0:8], cid)
@@ -160,6 +173,7 @@ func stressAnnRound(o *Out, rng *rand.Rand, clients, perClient int) {
 		}
 	}
 	all = append(all, "EDump "+cList(items))
+	all = append(all, fmt.Sprintf("EHookSaw %d %d", atomic.LoadInt64(&saw.views), atomic.LoadInt64(&saw.wrong)))
 	cc := fmt.Sprintf("{| e_key := %s; e_skew := %s; e_uspoof := true; e_hspoof := false; e_hdrname := []; e_maxnw := %d; e_defnw := %d; e_maxscrape := %d; e_interval := %s; e_min_interval := %s |}",
 		cB([]byte(cfg.Key)), cZ(cfg.SkewNs), cfg.MaxNW, cfg.DefNW, cfg.MaxScrape, cZ(cfg.Interval), cZ(cfg.MinIntv))
 	o.add(Case{Coq: fmt.Sprintf("(%s, [\n  %s])", cc, joinLines(all)), Kind: "udp-stress-announce",
@@ -374,6 +388,37 @@ func sumInts(l []int) int {
 	return t
 }
 
+
+// stressSaw: a hook (used as pre-hook and as post-hook) that compares the parameters a request carries with the ones its
+// sender put into the datagram.
+type stressSaw struct {
+	want         sync.Map // peer ID -> expected raw query (prefix, for the long ones)
+	views, wrong int64
+}
+
+func (h *stressSaw) look(req *bittorrent.AnnounceRequest) {
+	w, ok := h.want.Load(string(req.Peer.ID[:]))
+	if !ok || req.Params == nil {
+		return
+	}
+	atomic.AddInt64(&h.views, 1)
+	q := req.Params.RawQuery()
+	ws := w.(string)
+	good := q == ws
+	if strings.HasPrefix(ws, "a=b&pad=") {
+		good = strings.HasPrefix(q, ws) && strings.Trim(q[len(ws):], "x") == ""
+	}
+	if !good {
+		atomic.AddInt64(&h.wrong, 1)
+	}
+}
+func (h *stressSaw) HandleAnnounce(ctx context.Context, req *bittorrent.AnnounceRequest, _ *bittorrent.AnnounceResponse) (context.Context, error) {
+	h.look(req)
+	return ctx, nil
+}
+func (h *stressSaw) HandleScrape(ctx context.Context, _ *bittorrent.ScrapeRequest, _ *bittorrent.ScrapeResponse) (context.Context, error) {
+	return ctx, nil
+}
 
 // stressLongOpts renders a request string as BEP 41 URLData options occupying exactly n bytes.
 func stressLongOpts(n int) []byte {
